@@ -644,7 +644,7 @@ pub fn property() -> Property {
   Property {
     id: "C06",
     level: "exploration",
-    rule: "generated (t, k secret elements from the boundary set of C07 or uniform, scripted random source = generated word prefix incl. 0 / 2^64-1 / limbs of p followed by a ChaCha tail, dealing by iterator or by random points with a second scripted source, selection with permutation/duplicates/surplus, sub-threshold selection, unequal-length mutation, out-of-range secret element). Oracle: bigint Horner over the draws replayed from the same stream, bigint Lagrange, coefficient-multiset fallback. Non-trivial: t >= 2, k >= 1 and (boundary-valued element or non-identity selection or scripted prefix); distinct by (t, secret, prefix, mode, selection).",
+    rule: "generated (t, k secret elements from the boundary set of C07 or uniform, scripted random source = generated word prefix incl. 0 / 2^64-1 / limbs of p followed by a ChaCha tail, dealing by iterator (next), by random points with a second scripted source, or through a generated script of iterator adaptors (nth / skip / step_by / take / last), selection with permutation/duplicates/surplus, sub-threshold selection, unequal-length mutation, out-of-range secret element). Oracle: bigint Horner over the draws replayed from the same stream, bigint Lagrange, coefficient-multiset fallback. Non-trivial: t >= 2, k >= 1 and (boundary-valued element or non-identity selection or scripted prefix); distinct by (t, secret, prefix, mode, selection).",
     assumptions: vec![
       "a 'draw from the supplied source' is defined as what Fp::random returns on a clone of the same stream",
       "degenerate streams are finite prefixes followed by ChaCha output (an endless constant stream would hang ff's rejection sampler by construction)",
